@@ -58,6 +58,15 @@ BUILT = {
    'The termination protocol of a tool invocation is a two-state machine in the specification (BklCli!ProtocolOK: exit 0, or non-zero exit with empty stdout and a diagnostic on stderr; a panic, signal, timeout or partial output is not a state). TLC (a) evaluates all 17^3 reference graphs on three subtrees (every reference form, cycles included), asserts StrictCycleIsError and AcyclicNeverReportsCycle, and every graph is evaluated through the real CLI and compared; (b) validates the protocol on every process recorded by the drivers: the repository\'s fuzz corpus and fixtures pushed through the whole pipeline, generated directive-laden documents with type-confused arguments in three formats plus byte mutations, raw byte strings as JSON/TOML, and all 64 $parent graphs on three files - each through bkl (three output formats), bklr, bkld and bkli under a timeout.',
    'For raw byte strings the specification only enforces the protocol (it cannot say whether bytes are valid TOML). A timeout is confirmed by a second, solitary run with four times the budget before it counts. YAML is not offered raw bytes (the property excludes it; upstream yaml.v3 issue). One listed known finding (c08-branching-cycle).',
    'TLA+ protocol machine + reference-graph universe (MC_Eval C08) replayed through the CLI + TLC trace validation of recorded processes (exploration for raw inputs)', '6 C08'),
+
+ 'C09': ('model_checking',
+   'In the specification every machine is a function, so "every run conforms" implies "all runs agree" on abstract outputs; byte identity is added with the history variable `firsts` of the trace specification (first status and digest per input; every later Repeat event must equal it). The driver evaluates each input once against the specification (Eval event), 5 times in one process, from 16 goroutines at once in a race-detector build (a race report is a violation) and 3x2 times in fresh bkl processes; TLC validates all runs. Inputs: wide maps through tolist/values, computed keys colliding with literal siblings, many outputs, named repeat products, self-containing root merges, generated directive-laden streams.',
+   'Interleavings of the real goroutines are whatever the Go scheduler and -race produce in the run: sampled, not enumerated (DESIGN.md section 8). Trusts TLC and tv.',
+   'TLA+ trace validation with a first-run history variable + race-detector build + fresh-process reruns (exploration of schedules)', '6 C09'),
+ 'C20': ('model_checking',
+   'TLC evaluates the wrapper machine (BklCli!WrapOp) on every argument vector of length <= MaxArgs over 16 argument kinds on a fixed directory, asserts OnlyBklFilesChange / UntouchedByteForByte / FailingFileMeansNoExec, and every vector is run through the real bklb (symlinked as probeb) or kubectl-bkl with a probe program on PATH that records its argv and the content of file arguments. Random directories (layers in mixed formats) with random vectors of 0-8 arguments are run the same way and validated by TLC; substituted files are decoded by the independent decoder (Python json / PyYAML core schema / tomllib) of the argument\'s extension and compared with the evaluation computed by the specification.',
+   'Trusts the independent decoders and the probe script. Arguments that denote standard input (-.yaml) are not generated.',
+   'TLA+ wrapper machine + TLC bounded argument-vector model with replay on the real binaries + TLC trace validation', '6 C20'),
 }
 PENDING = 'check not built yet (work in progress; DESIGN.md section 6 describes the planned decision procedure)'
 
